@@ -220,3 +220,39 @@ package raftlog
 //@     assume ret0 != nil
 //@   ensures [reopen_reapplies_pending_prefix_deletion] result1 == nil ==> tried
 //@   ensures [reapply_failure_does_not_refuse_the_directory] tried ==> result1 == nil
+
+// Term(i) and the conflict test of an append rest on seekEntry: it answers with an entry (nil error) only if the slot the
+// search found holds an entry whose index IS the index asked for; an index before the log is reported (compacted), an
+// index behind it or an empty slot likewise (unavailable) - never as a nil error with some other entry.
+//@ prop C17
+//@ func (*entryLog).seekEntry
+//@   ghost got bool = false
+//@   ghost fi int = 0
+//@   ghost off int = 0
+//@   ghost ix uint64 = 0
+//@   call (*entryLog).slotGe
+//@     set fi = ret0
+//@     set off = ret1
+//@     set got = true
+//@   call (*entryLog).getEntryFile
+//@     requires [file_of_the_slot_that_was_found] got && arg0 == fi && off != -1 && off < maxNumEntries
+//@   call (*logFile).getEntry
+//@     requires [entry_of_the_slot_that_was_found] got && arg0 == off
+//@   call .Index
+//@     set ix = ret0
+//@   ensures [index_outside_the_log_is_an_error] raftIndex != 0 && got && (off == -1 || off >= maxNumEntries) ==> result1 != nil
+//@   ensures [nil_error_only_with_the_entry_of_that_index] raftIndex != 0 && result1 == nil && errNotFound != nil ==> got && ix == raftIndex
+
+// The slot search inside one file: -1 exactly when the index lies before the file (or the file is empty), otherwise a
+// slot number in [0, maxNumEntries] found over the WHOLE slot table (a shorter search range hides the tail of the file).
+//@ func (*logFile).slotGe
+//@   ghost f uint64 = 0
+//@   ghost asked bool = false
+//@   call (*logFile).firstIndex
+//@     set f = ret0
+//@     set asked = true
+//@   call sort.Search
+//@     requires [whole_slot_table_searched] arg0 == maxNumEntries
+//@     assume ret0 >= 0 && ret0 <= arg0
+//@   ensures [index_before_the_file_is_reported_as_such] asked && (f == 0 || raftIndex < f) ==> result == -1
+//@   ensures [an_index_inside_the_file_never_reads_as_before_it] asked && !(f == 0 || raftIndex < f) ==> result >= 0 && result <= maxNumEntries
